@@ -1399,7 +1399,7 @@ class Unserializer:
 
     def load(self, versioned: bool = False) -> Any:
         if versioned:
-            ver = self.stream.read(1)
+            ver = self._read_exact(1)
             if ver != DUMPFORMAT_VERSION:
                 raise LoadError("wrong dumpformat version %r" % ver)
         self.stack: list[object] = []
@@ -1414,7 +1414,10 @@ class Unserializer:
                     raise LoadError(
                         f"unknown opcode {opcode!r} - wire protocol corruption?"
                     ) from None
-                loader(self)
+                try:
+                    loader(self)
+                except (ValueError, TypeError, IndexError) as e:
+                    raise LoadError(f"corrupted data: {e!r}") from e
         except _Stop:
             if len(self.stack) != 1:
                 raise LoadError("internal unserialization error") from None
@@ -1455,24 +1458,36 @@ class Unserializer:
     num2func[opcode.LONGLONG] = load_longlong
 
     def load_float(self) -> None:
-        binary = self.stream.read(FLOAT_FORMAT_SIZE)
+        binary = self._read_exact(FLOAT_FORMAT_SIZE)
         self.stack.append(struct.unpack(FLOAT_FORMAT, binary)[0])
 
     num2func[opcode.FLOAT] = load_float
 
     def load_complex(self) -> None:
-        binary = self.stream.read(COMPLEX_FORMAT_SIZE)
+        binary = self._read_exact(COMPLEX_FORMAT_SIZE)
         self.stack.append(complex(*struct.unpack(COMPLEX_FORMAT, binary)))
 
     num2func[opcode.COMPLEX] = load_complex
 
+    def _read_exact(self, numbytes: int) -> bytes:
+        """Read exactly 'numbytes' bytes; EOFError if the input ends early."""
+        if numbytes < 0:
+            raise LoadError("negative length %d - data corruption?" % numbytes)
+        buf: bytes = self.stream.read(numbytes)
+        while len(buf) < numbytes:
+            data = self.stream.read(numbytes - len(buf))
+            if not data:
+                raise EOFError("expected %d bytes, got %d" % (numbytes, len(buf)))
+            buf += data
+        return buf
+
     def _read_int4(self) -> int:
-        value: int = struct.unpack("!i", self.stream.read(4))[0]
+        value: int = struct.unpack("!i", self._read_exact(4))[0]
         return value
 
     def _read_byte_string(self) -> bytes:
         length = self._read_int4()
-        as_bytes = self.stream.read(length)
+        as_bytes = self._read_exact(length)
         return as_bytes
 
     def load_py3string(self) -> None:
@@ -1557,7 +1572,8 @@ class Unserializer:
 
     def load_channel(self) -> None:
         id = self._read_int4()
-        assert self.channelfactory is not None
+        if self.channelfactory is None:
+            raise LoadError("channel object outside of a gateway connection")
         newchannel = self.channelfactory.new(id)
         self.stack.append(newchannel)
 
